@@ -807,7 +807,7 @@ def run(ctx):
     # reduced alphabet, one level deeper, three handles in the thorough tier
     red_keys = ["a", "k256", "empty"]
     red_vals = {"e": b"", "x": b"x"}
-    dU_red = 8 if thorough else 7
+    dU_red = 7
     mkU3 = lambda c: USys(c, nhandles=3 if thorough else 2, keys=red_keys, vals=red_vals, label="U3")
     seqx.pbfs(ctx, mkU3, [[]], dU_red)
     ctx.bound["U_reduced_alphabet_depth"] = dU_red
@@ -821,7 +821,7 @@ def run(ctx):
     seqx.pbfs(ctx, mkC, [[]], dC)
     ctx.bound["C_2handles_depth"] = dC
     # deeper with a reduced alphabet: stale handles need new+new+enter+set+exit+enter(other)+...
-    dC2 = 9 if thorough else 8
+    dC2 = 8
     mkC2 = lambda c: CSys(c, nhandles=3 if thorough else 2, keys=["a", "k256"], vals={"x": b"x"}, bufs=["dflt", "large"], label="C3")
     seqx.pbfs(ctx, mkC2, [[]], dC2)
     ctx.bound["C_reduced_alphabet_depth"] = dC2
